@@ -41,9 +41,11 @@ broken translator obligation):
                observed through its first `fuel` iterations: the result is the list of values yielded by them.
   generators : return type `gen:<elem>`: the result is the list of yielded values in order (`out_`, threaded through
                loops as a state variable; `yield e` is `out_ ++ [e]`).
-  effects    : return type `calls:<n>`: a method whose observable behaviour is the sequence of its calls
-               `self.<m>(a1, ..., an)` for `<m>` in EFFECTS (n integer arguments, no keywords): the result is the list
-               of argument tuples in call order.
+  effects    : return type `calls:<n>` / `calls:<t1>,<t2>,...`: a method whose observable behaviour is the sequence of
+               its calls `self.<m>(a1, ..., an)` for `<m>` in EFFECTS (n integer arguments / arguments of the given
+               types, no keywords): the result is the list of argument tuples in call order.
+  bytes      : parameter type "bytes": a byte string as the list of its byte values (`List Int`); `len(b)`,
+               `b[i:j]` (= `pySlice b i j`, Python's clamping slice; also for other list-typed parameters).
   methods    : a FUNCS name `Class.method` selects a method of a class.
                * `@classmethod`: the `cls` parameter is dropped; `@property` / `@staticmethod` are transparent.
                * decorators listed in GUARDS (`_if_not_closed`): the generated definition is the method body, i.e.
@@ -148,6 +150,9 @@ FUNCS = [
     ("rig/machine_control/machine_controller.py", "SlicedMemoryIO.__getitem__",
      ["obj:_start_address,_end_address,_offset", "oslice"], "exc:tup2"),
     ("rig/routing_table/ordered_covering.py", "_get_insertion_index", ["list:rec:key,mask", "int"], "exc:int"),
+    # `self.scp_data_length` is a caching property (its first read may query the machine); its value is an input here
+    ("rig/machine_control/machine_controller.py", "MachineController._send_ffd",
+     ["obj:scp_data_length", "int", "bytes", "int"], "exc:calls:int,int,int,int,int,int,int,bytes"),
 ]
 
 # module-level tables of the source, already regenerated into Lean by other translator modules
@@ -165,7 +170,7 @@ GUARDS = ("_if_not_closed",)
 # classes whose construction may be returned: the integer arguments kept (by position)
 CONSTRUCTORS = {"SlicedMemoryIO": (1, 2)}
 
-BASE_TY = {"int": "Int", "tup2": "Int × Int", "tup3": "Int × Int × Int", "slice": "Int × Int", "bool": "Bool",
+BASE_TY = {"bytes": "List Int", "int": "Int", "tup2": "Int × Int", "tup3": "Int × Int × Int", "slice": "Int × Int", "bool": "Bool",
            "optnn": "Option (Nat × Nat)", "none": "Unit", "optint": "Option Int",
            "oslice": "Option Int × Option Int × Option Int", "list:int": "List Int", "list:tup2": "List (Int × Int)"}
 
@@ -192,6 +197,13 @@ def pyGet {α : Type} (l : List α) (i : Int) : Except String α :=
   else match l[j.toNat]? with
     | some v => Except.ok v
     | none => Except.error "IndexError"
+
+/-- Python `l[a:b]` on a list / bytes: negative indices count from the end, both are clamped to the list -/
+def pySlice {α : Type} (l : List α) (a b : Int) : List α :=
+  let n : Int := (l.length : Int)
+  let a' : Int := if a < 0 then max (a + n) 0 else min a n
+  let b' : Int := if b < 0 then max (b + n) 0 else min b n
+  (l.drop a'.toNat).take (b' - a').toNat
 
 /-- Python `int(math.sqrt(n))` (integer square root, exact below 2^52; `ValueError: math domain error` for n < 0) -/
 def pyIsqrt (n : Int) : Except String Int :=
@@ -223,10 +235,18 @@ def lean_ty(t):
     if t.startswith("gen:"):
         return "List " + paren(lean_ty(t[4:]))
     if t.startswith("calls:"):
-        return "List (" + " × ".join(["Int"] * int(t[6:])) + ")"
+        return "List (" + prod(calls_types(t)) + ")"
     if t.startswith("list:rec:"):
         return "List (" + " × ".join(["Int"] * len(t[9:].split(","))) + ")"
     return BASE_TY[t]
+
+
+def calls_types(t):
+    """`calls:7` / `calls:int,int,bytes`: Lean types of the arguments of the recorded call"""
+    spec = t[6:]
+    if spec.isdigit():
+        return ["Int"] * int(spec)
+    return [BASE_TY[x] for x in spec.split(",")]
 
 
 def paren(t):
@@ -371,6 +391,13 @@ class Tr(object):
     def is_exc(self):
         return self.ret.startswith("exc:")
 
+    def base(self):
+        return self.ret[4:] if self.is_exc() else self.ret
+
+    def is_stream(self):
+        """a generator / a function observed through its effect calls: the result is the list `out_`"""
+        return self.base().startswith(("gen:", "calls:"))
+
     def enum_member(self, n):
         """`Enum.member` -> int value or None"""
         if isinstance(n, ast.Attribute) and isinstance(n.value, ast.Name) and n.value.id in self.enums \
@@ -425,6 +452,9 @@ class Tr(object):
             return "Int × Int"
         if self.is_list_index(n):
             return self.elem_ty(n.value.id)
+        if (isinstance(n, ast.Subscript) and isinstance(n.value, ast.Name) and isinstance(n.slice, ast.Slice)
+                and self.lty.get(ident(n.value.id), "").startswith("List ")):
+            return self.lty[ident(n.value.id)]
         if isinstance(n, ast.IfExp):
             return self.tyof(n.body)
         if isinstance(n, (ast.Compare, ast.BoolOp)) or (isinstance(n, ast.UnaryOp) and isinstance(n.op, ast.Not)):
@@ -468,6 +498,15 @@ class Tr(object):
 
     # ---- expressions --------------------------------------------------------
     def e(self, n):
+        if (isinstance(n, ast.Subscript) and isinstance(n.value, ast.Name) and isinstance(n.slice, ast.Slice)
+                and self.lty.get(ident(n.value.id), "").startswith("List ")):
+            # l[a:b] (no step): Python's clamping slice
+            if n.slice.step is not None:
+                raise NotImplementedError("slice with a step")
+            l = ident(n.value.id)
+            a = self.e(n.slice.lower) if n.slice.lower is not None else "(0 : Int)"
+            b = self.e(n.slice.upper) if n.slice.upper is not None else "((%s).length : Int)" % l
+            return "(pySlice %s %s %s)" % (l, a, b)
         if self.is_list_index(n):
             # l[i]: IndexError outside the list, negative indices count from the end
             t = self.raising("(pyGet %s %s)" % (ident(n.value.id), self.e(n.slice)))
@@ -822,13 +861,13 @@ class Tr(object):
         if not isinstance(s, ast.Expr):
             return None
         if isinstance(s.value, ast.Yield):
-            if not self.ret.startswith("gen:") or s.value.value is None:
+            if not self.base().startswith("gen:") or s.value.value is None:
                 raise NotImplementedError("yield in a function not declared gen:")
             return s.value.value
         c = s.value
         if (isinstance(c, ast.Call) and isinstance(c.func, ast.Attribute) and isinstance(c.func.value, ast.Name)
                 and c.func.value.id == "self" and c.func.attr in EFFECTS):
-            if not self.ret.startswith("calls:") or c.keywords or len(c.args) != int(self.ret[6:]):
+            if not self.base().startswith("calls:") or c.keywords or len(c.args) != len(calls_types(self.base())):
                 raise NotImplementedError("effect call %s with %d arguments / keywords in a function declared %s"
                                           % (c.func.attr, len(c.args), self.ret))
             return ast.Tuple(elts=list(c.args), ctx=ast.Load())
@@ -899,10 +938,10 @@ class Tr(object):
 
     def ret_value(self, v):
         """`return v`"""
-        if self.ret.startswith(("gen:", "calls:")):
+        if self.is_stream():
             if v is not None:
                 raise NotImplementedError("return with a value in a generator")
-            return "out_"
+            return "(Except.ok out_)" if self.is_exc() else "out_"
         base = self.ret[4:] if self.is_exc() else self.ret
         if v is None or (isinstance(v, ast.Constant) and v.value is None):
             if base != "none":
@@ -1280,7 +1319,7 @@ class Tr(object):
         where = "at line %d of `%s`" % (s.lineno - self.fn.lineno + 1, self.qual)
         if forever and not has_brk:
             # an infinite loop: only meaningful in a generator, observed through its first `fuel` iterations
-            if not self.ret.startswith("gen:") or rest or s.orelse or self.loops:
+            if not self.base().startswith("gen:") or rest or s.orelse or self.loops:
                 raise NotImplementedError("`while True` without break outside a generator / followed by code")
             self.loops.append(Loop(comps))
             body = self.unpack("  ", "st_", comps, tys) + self.block(s.body, 1, self.loops[-1].tuple())
@@ -1447,8 +1486,11 @@ def translate(repo, rel, fname, ptypes, ret, done=None):
                     if isinstance(x, ast.Name):
                         tr.assigned_anywhere.add(ident(x.id))
     base = ret[4:] if ret.startswith("exc:") else ret
-    if ret.startswith(("gen:", "calls:")):
-        rty = lean_ty(ret)
+    stream = base.startswith(("gen:", "calls:"))
+    if stream:
+        rty = lean_ty(base)
+        if any(tr_assigns_attr(n) for n in ast.walk(fn)):
+            raise NotImplementedError("a generator / effect function that assigns attributes of self")
     elif base == "none":
         rty = prod(aty) if attrs else "Unit"
     else:
@@ -1457,9 +1499,9 @@ def translate(repo, rel, fname, ptypes, ret, done=None):
         rty = "Except String " + paren(rty)
     tr.full_ret_ty = rty
     # what falling off the end of the function means
-    if ret.startswith(("gen:", "calls:")):
-        tr.lty["out_"] = rty
-        tr.fn_tail = lambda: "out_"
+    if stream:
+        tr.lty["out_"] = lean_ty(base)
+        tr.fn_tail = lambda: tr.ret_value(None)
     elif base == "none":
         tr.fn_tail = lambda: tr.ret_value(None)
     else:
@@ -1475,8 +1517,8 @@ def translate(repo, rel, fname, ptypes, ret, done=None):
         return orig_for(s, rest, ind, tail)
     tr.for_stmt = for_stmt
     body = tr.block(body_stmts, 1)
-    if ret.startswith(("gen:", "calls:")):
-        body = "  let out_ : %s := []\n" % rty + body
+    if stream:
+        body = "  let out_ : %s := []\n" % lean_ty(base) + body
     if tr.uses_fuel:
         sig.append("(fuel : Nat)")
     assigns_state = any(tr_assigns_attr(n) for n in ast.walk(fn))
